@@ -90,7 +90,7 @@ MODELLED = ('image.py _standardize_row_column_indices, _iterate_indices_for_tile
             'float masks as LEVEL planes: range / max_fractional_value guards, emptiness of a tile and per-segment '
             'omission decided on the quantised levels (stored_frac / run_seg_frac); frame-wise construction from frames at '
             'caller-chosen positions: _get_nonempty_plane_indices, per-segment omission, the TotalPixelMatrixRows/Columns '
-            '_add_slide_coordinate_metadata derives from the frame that is last by (column, row) offset '
+            '_add_slide_coordinate_metadata derives from the largest row and column offsets '
             '(seg_store_frames / declared_free / run_seg_free); the described segment numbers are a parameter of every '
             'seg term (any ascending list)')
 STRATA = ['std', 'std_bad', 'img', 'img_missing', 'img_dup', 'seg', 'seg_full_omit', 'np1d',
@@ -154,8 +154,12 @@ SEG_TERM_KINDS = SEG_KINDS + ('seg_frames',)     # same model term: the library'
 # shape (R, C, 3)": "single frame" was recognised by `pixel_array.ndim == 2`, true for grayscale only).  The configuration
 # stays in the default img_hist stream (biased towards it) and in corpus/C04/d108_single_colour_frame_cached.json.
 # D100 (tiled get_volume with the one-based end 0), found by this check, was fixed in /repo as well.
-# OPEN (found by the kinds seg_free / seg_frac, reported; ids provisional - register them in KNOWN_FINDINGS.json under
-# these ids or rename the keys): see _sig_free_declared / _sig_empty_rescaled below (FINDINGS is filled in there).
+# D121 (found by the kind seg_free, fixed in /repo, commit c43ed8f): a frame-wise Segmentation with explicit plane_positions took
+# TotalPixelMatrixRows AND Columns from the frame last by (column, row) offset, so frames at (1, 5) and (5, 1) declared 2 x 6 and
+# the lower frame could not be read.  D122 (found by seg_frac, fixed, commit 4a7336b): an EMPTY region of a FRACTIONAL segmentation
+# read as rescaled planes raised ValueError (max() of an empty array).  Both configurations stay in the default streams
+# (18 % of seg_free without a frame at the bounding-box corner; empty regions with rescale_fractional in seg_frac) and in
+# corpus/C04/d121_*.json / d122_*.json; the oracle demands the bounding box and the empty array.
 FINDINGS = {}
 
 
@@ -925,31 +929,6 @@ def _gen_seg_free(rng):
             'obj': rng.choice(['mem', 'mem', 'file']), 'reads': reads}
 
 
-def _sig_free_declared(c):
-    """signature of the open finding 'frame-wise segmentation declares a total pixel matrix smaller
-    than the extent of its frames': the frame that is last by (column, row) offset is not the lowest"""
-    if c.get('kind') != 'seg_free':
-        return False
-    last = max(c['pos'], key=lambda p: (p[1], p[0]))
-    return last[0] != max(p[0] for p in c['pos'])
-
-
-def _sig_empty_rescaled(c):
-    """signature of the open finding 'an EMPTY region of a FRACTIONAL segmentation read as rescaled planes
-    (rescale_fractional=True, the default) raises ValueError instead of returning the empty array'"""
-    if c.get('kind') != 'seg_frac' or c['bad'] is not None or (c['full'] and c['omit']):
-        return False
-    for mode, _vv, sel, rg, o in c['reads']:
-        ref = ref_region(c['R'], c['C'], rg)
-        if (mode == 'planes' and o['rescale'] and ref is not None and (ref[0] == ref[1] or ref[2] == ref[3])
-                and sel and all(1 <= k <= c['nseg'] for k in sel)):
-            return True
-    return False
-
-
-FINDINGS.update({'D117': _sig_free_declared, 'D118': _sig_empty_rescaled})
-
-
 def _gen_img_free(rng):
     """a slide image whose frames COVER the matrix from explicit positions off the regular grid
     (overlapping neighbours; the last frame may reach beyond the matrix), stored in any order"""
@@ -1137,10 +1116,6 @@ def gen_cases(rng, tier):
         cases.append(_gen_seg_free(rng))
     for _ in range(40 * nrand):
         cases.append(_gen_img_free(rng))
-    if os.environ.get('VERIF_C04_SKIP_OPEN'):
-        # testing aid, OFF by default: leave out the cases that hit the two reported, still open defects of /repo
-        # (FINDINGS) so that everything else can be validated before they are fixed / registered
-        cases = [c for c in cases if not any(sig(c) for sig in FINDINGS.values())]
     return cases
 
 
